@@ -19,10 +19,10 @@ Import ListNotations.
 Local Open Scope string_scope.
 Local Open Scope list_scope.
 
-Inductive family := FUniform | FGaussian | FLogUniform.
+Inductive family := FUniform | FGaussian | FLogUniform | FLogGaussian.
 
-(* MessageException (negative sigma) | PriorException (limits) | IndexError | KeyError *)
-Inductive exn := EMessage | EPrior | EIndex | EKey.
+(* MessageException (negative sigma) | PriorException (limits) | IndexError | KeyError | TypeError *)
+Inductive exn := EMessage | EPrior | EIndex | EKey | EType.
 
 Inductive res (A : Type) := Ok (a : A) | Exc (e : exn).
 Arguments Ok {A}. Arguments Exc {A}.
@@ -318,6 +318,9 @@ Section Pass.
             if lu_bad lo then Exc EPrior
             else if bad_limits lo hi then Exc EPrior
             else Ok {| s_fam := FLogUniform; s_lo := lo; s_hi := hi; s_mean := lo; s_sigma := lo; s_wm := None |}
+        | FLogGaussian =>                                     (* Prior.with_limits: self.__class__(lower_limit=, upper_limit=)
+                                                                 lacks the required mean and sigma: TypeError *)
+            Exc EType
         end
     end.
 
@@ -439,7 +442,7 @@ Definition ffixed : node float -> list float -> option (node float) := fixed flo
 
 Definition family_eqb (a b : family) : bool :=
   match a, b with
-  | FUniform, FUniform | FGaussian, FGaussian | FLogUniform, FLogUniform => true
+  | FUniform, FUniform | FGaussian, FGaussian | FLogUniform, FLogUniform | FLogGaussian, FLogGaussian => true
   | _, _ => false
   end.
 
@@ -498,7 +501,7 @@ Fixpoint node_eqb (a b : node float) : bool :=
 
 Definition exn_eqb (a b : exn) : bool :=
   match a, b with
-  | EMessage, EMessage | EPrior, EPrior | EIndex, EIndex | EKey, EKey => true
+  | EMessage, EMessage | EPrior, EPrior | EIndex, EIndex | EKey, EKey | EType, EType => true
   | _, _ => false
   end.
 
